@@ -275,6 +275,9 @@ void COTPdoTx(CO_TPDO *pdo)
     if ((pdo->Node->Nmt.Allowed & CO_PDO_ALLOWED) == 0) {
         return;
     }
+    if ((pdo->Identifier & CO_TPDO_COBID_OFF) != 0) {
+        return;                                /* TPDO is not valid        */
+    }
     if ( (pdo->Flags & CO_TPDO_FLG__I_) != 0) {
         pdo->Flags |= CO_TPDO_FLG___E;
         return;
